@@ -260,6 +260,167 @@ func genIndexSigGlue() {
 		}
 		l.defStrList("glue_modeStmts", modeStmts)
 	}
+	// everything of the index cache through which the result of one read can reach another read: the fields of the
+	// struct, and every use of a field or method of the receiver in its methods together with the key it is used under
+	// (first argument / index expression; "" for calls without arguments such as Lock(); "<escapes>" when the field is
+	// handed to something else)
+	{
+		f := load("pkg/apk/apk/index.go")
+		var fields [][2]string
+		found := false
+		for _, d := range f.f.Decls {
+			gd, ok := d.(*ast.GenDecl)
+			if !ok {
+				continue
+			}
+			for _, sp := range gd.Specs {
+				ts, ok := sp.(*ast.TypeSpec)
+				if !ok || ts.Name.Name != "indexCache" {
+					continue
+				}
+				st, ok := ts.Type.(*ast.StructType)
+				if !ok {
+					continue
+				}
+				found = true
+				for _, fl := range st.Fields.List {
+					if len(fl.Names) == 0 {
+						fields = append(fields, [2]string{"", f.src(fl.Type)})
+					}
+					for _, n := range fl.Names {
+						fields = append(fields, [2]string{n.Name, f.src(fl.Type)})
+					}
+				}
+			}
+		}
+		if !found {
+			problem("indexsig-glue: index.go: struct indexCache not found")
+		}
+		l.defStrStrList("glue_cacheFields", fields)
+
+		var uses [][2]string
+		var keyDefs [][2]string
+		for _, d := range f.f.Decls {
+			fd, ok := d.(*ast.FuncDecl)
+			if !ok || fd.Body == nil || fd.Recv == nil || len(fd.Recv.List) != 1 || !strings.HasPrefix(declName(fd), "indexCache.") {
+				continue
+			}
+			recv := ""
+			if len(fd.Recv.List[0].Names) == 1 {
+				recv = fd.Recv.List[0].Names[0].Name
+			}
+			if recv == "" {
+				continue
+			}
+			var stack []ast.Node
+			ast.Inspect(fd.Body, func(n ast.Node) bool {
+				if n == nil {
+					stack = stack[:len(stack)-1]
+					return true
+				}
+				stack = append(stack, n)
+				if as, ok := n.(*ast.AssignStmt); ok && fd.Name.Name == "get" {
+					for i, lhs := range as.Lhs {
+						if id, ok := lhs.(*ast.Ident); ok && i < len(as.Rhs) {
+							var ids []string
+							ast.Inspect(as.Rhs[i], func(m ast.Node) bool {
+								if x, ok := m.(*ast.Ident); ok {
+									ids = append(ids, x.Name)
+								}
+								return true
+							})
+							for _, x := range ids {
+								keyDefs = append(keyDefs, [2]string{id.Name, x})
+							}
+						}
+					}
+				}
+				sel, ok := n.(*ast.SelectorExpr)
+				if !ok {
+					return true
+				}
+				if id, ok := sel.X.(*ast.Ident); !ok || id.Name != recv {
+					return true
+				}
+				// climb: recv.f[.g]* then a call or an index expression
+				var top ast.Node = sel
+				k := len(stack) - 2
+				for k >= 0 {
+					if ps, ok := stack[k].(*ast.SelectorExpr); ok && ps.X == top {
+						top = ps
+						k--
+						continue
+					}
+					break
+				}
+				key := "<escapes>"
+				if k >= 0 {
+					switch pn := stack[k].(type) {
+					case *ast.CallExpr:
+						if pn.Fun == top {
+							key = ""
+							if len(pn.Args) > 0 {
+								key = f.src(pn.Args[0])
+							}
+						}
+					case *ast.IndexExpr:
+						if pn.X == top {
+							key = f.src(pn.Index)
+						}
+					}
+				}
+				uses = append(uses, [2]string{fd.Name.Name + ": " + f.src(top), key})
+				return true
+			})
+		}
+		l.defStrStrList("glue_sharedUses", uses)
+		// the variables used as keys: which identifiers their definitions mention, one pair per (variable, identifier)
+		var kd [][2]string
+		for _, d := range keyDefs {
+			switch d[0] {
+			case "key", "prevKey", "um", "mode":
+				kd = append(kd, d)
+			}
+		}
+		l.defStrStrList("glue_keyVarIdents", kd)
+	}
+
+	// APK.GetRepositoryIndexes: every read of the root file system (the key set is built from these), the path
+	// expressions, and the value of the keys-directory constant
+	{
+		f := load("pkg/apk/apk/repo.go")
+		fd := f.fn("APK.GetRepositoryIndexes")
+		var reads []string
+		if fd != nil && fd.Body != nil {
+			ast.Inspect(fd.Body, func(n ast.Node) bool {
+				switch x := n.(type) {
+				case *ast.CallExpr:
+					if strings.HasPrefix(f.src(x.Fun), "a.fs.") {
+						reads = append(reads, f.src(x))
+					}
+				case *ast.AssignStmt:
+					for i, lhs := range x.Lhs {
+						if id, ok := lhs.(*ast.Ident); ok && i < len(x.Rhs) && (id.Name == "fullPath" || strings.Contains(strings.ToLower(id.Name), "dir") && id.Name != "dir") {
+							reads = append(reads, id.Name+" "+x.Tok.String()+" "+f.src(x.Rhs[i]))
+						}
+					}
+				case *ast.RangeStmt:
+					reads = append(reads, "range "+f.src(x.X))
+				}
+				return true
+			})
+		}
+		l.defStrList("glue_apkRootReads", reads)
+		cf := load("pkg/apk/apk/const.go")
+		v, ok := "", false
+		if cf != nil {
+			v, ok = cf.stringVar("keysDirPath")
+		}
+		if !ok {
+			problem("indexsig-glue: const.go: keysDirPath not found")
+		}
+		l.defStr("glue_keysDirPath", v)
+	}
 	l.write()
 
 	hashFn("pkg/apk/apk/implementation.go", "APK.ResolveWorld")
